@@ -4,10 +4,22 @@ package irt
 
 import (
 	"reflect"
+	"sort"
 	"unsafe"
 
 	"github.com/ja7ad/otp"
+	"github.com/ja7ad/otp/internal/app/api"
 )
+
+// allGlobals merges the generated accessors of package otp and of the REST package ("api." prefix): state a
+// change introduces in either of them is part of snapshots, digests and diffs.
+func allGlobals() map[string]any {
+	out := otp.VerifGlobals()
+	for n, p := range api.VerifGlobals() {
+		out["api."+n] = p
+	}
+	return out
+}
 
 // Snapshot is a deep copy of every package-level variable of package otp (generated
 // accessor), taken before the library has been used.  Restoring it before every execution of
@@ -19,9 +31,10 @@ type Snapshot map[string]reflect.Value
 // SnapshotGlobals copies all package-level variables.
 func SnapshotGlobals() Snapshot {
 	s := Snapshot{}
-	for name, ptr := range otp.VerifGlobals() {
-		v := reflect.ValueOf(ptr).Elem()
-		s[name] = deepCopy(v, map[uintptr]reflect.Value{})
+	seen := map[uintptr]reflect.Value{} // one table for all variables: aliasing ACROSS variables is kept too
+	for _, name := range sortedNames(allGlobals()) {
+		v := reflect.ValueOf(allGlobals()[name]).Elem()
+		s[name] = deepCopy(v, seen)
 	}
 	return s
 }
@@ -29,13 +42,15 @@ func SnapshotGlobals() Snapshot {
 // Restore writes the snapshot back (a fresh deep copy each time, so that executions cannot
 // damage the snapshot itself).
 func (s Snapshot) Restore() {
-	for name, ptr := range otp.VerifGlobals() {
+	seen := map[uintptr]reflect.Value{}
+	g := allGlobals()
+	for _, name := range sortedNames(g) {
 		saved, ok := s[name]
 		if !ok {
 			continue
 		}
-		dst := reflect.ValueOf(ptr).Elem()
-		dst.Set(deepCopy(saved, map[uintptr]reflect.Value{}))
+		dst := reflect.ValueOf(g[name]).Elem()
+		dst.Set(deepCopy(saved, seen))
 	}
 }
 
@@ -85,7 +100,15 @@ func deepCopy(v reflect.Value, seen map[uintptr]reflect.Value) reflect.Value {
 		if v.IsNil() {
 			return reflect.Zero(v.Type())
 		}
+		// aliasing is kept for slices that are the very same (array, len, cap); partial overlaps are not tracked
+		skey := v.Pointer() ^ uintptr(v.Len())<<40 ^ uintptr(v.Cap())<<52 ^ 1
+		if c, ok := seen[skey]; ok && c.Type() == v.Type() && v.Cap() > 0 {
+			return c
+		}
 		n := reflect.MakeSlice(v.Type(), v.Len(), v.Cap())
+		if v.Cap() > 0 {
+			seen[skey] = n
+		}
 		full, nfull := v.Slice3(0, v.Cap(), v.Cap()), n.Slice3(0, v.Cap(), v.Cap())
 		for i := 0; i < v.Cap(); i++ {
 			nfull.Index(i).Set(deepCopy(full.Index(i), seen))
@@ -101,7 +124,12 @@ func deepCopy(v reflect.Value, seen map[uintptr]reflect.Value) reflect.Value {
 		if v.IsNil() {
 			return reflect.Zero(v.Type())
 		}
+		// two references to one map stay two references to one (copied) map
+		if c, ok := seen[v.Pointer()]; ok && c.Type() == v.Type() {
+			return c
+		}
 		n := reflect.MakeMapWithSize(v.Type(), v.Len())
+		seen[v.Pointer()] = n
 		it := v.MapRange()
 		for it.Next() {
 			n.SetMapIndex(deepCopy(it.Key(), seen), deepCopy(it.Value(), seen))
@@ -127,4 +155,13 @@ func deepCopy(v reflect.Value, seen map[uintptr]reflect.Value) reflect.Value {
 		}
 		return v
 	}
+}
+
+func sortedNames(m map[string]any) []string {
+	var n []string
+	for k := range m {
+		n = append(n, k)
+	}
+	sort.Strings(n)
+	return n
 }
